@@ -688,7 +688,7 @@ def step (ds : DState) (line : String) : DState × String :=
           | none => "none"
         m ++ "\t" ++ sp
       | _, _ => "bad-op")
-  | ["hop", dn, stream, hops] =>
+  | "hop" :: dn :: stream :: hops :: _ =>   -- an optional 5th token is the chunking of the transport (no bearing on the answer)
     (ds, match decStream stream, hops.toNat? with
       | some s, some h =>
         let cur : Bytes := s.filterMap (fun it => match it with | .b x => some x | _ => none)
